@@ -4,7 +4,8 @@
 says about it (apply to /repo, run ./check, undo)."""
 import json, os, re, shutil, subprocess, sys, time
 VERIF = "/verif"
-root = sys.argv[1]; tag = os.environ.get("SEED_TAG", "a")
+root = sys.argv[1]; tag = os.environ.get("SEED_TAG", "a"); prefix = os.environ.get("SEED_PREFIX", "mut-")
+first_attempt = json.load(open(os.environ["SEED_FIRST"])) if os.environ.get("SEED_FIRST") else {}
 verify = {}
 for f in os.listdir("/tmp"):
     if f.startswith("verify-") and f.endswith(".log"):
@@ -13,10 +14,10 @@ for f in os.listdir("/tmp"):
                 parts = l.split(" | ")
                 verify[parts[0].split()[1]] = " | ".join(parts[1:]).strip()
 for prop in sys.argv[2:]:
-    mdir = os.path.join(root, "mut-" + prop, "mutants")
+    mdir = os.path.join(root, prefix + prop, "mutants")
     for i in sorted(os.listdir(mdir)):
         src = os.path.join(mdir, i)
-        if not os.path.isfile(os.path.join(src, "patch.diff")):
+        if not os.path.isfile(os.path.join(src, "patch.diff")) or not i.isdigit():
             continue
         sid = "%s-%s%s" % (prop, tag, i)
         dst = os.path.join(VERIF, "seeded", sid)
@@ -50,6 +51,7 @@ for prop in sys.argv[2:]:
             "confirmed_in_scratch_worktree": verify.get(src, "not recorded"),
             "check_cmd": "git -C /repo apply seeded/%s/patch.diff && ./check %s --tier quick ; git -C /repo checkout -- ." % (sid, prop),
             "check_exit": r.returncode, "detected": r.returncode == 1 and bool(viol),
+            "first_attempt_before_the_check_was_strengthened": first_attempt.get(sid, "detected"),
             "lowest_failing_run_index": first, "violations": what[:3], "parts": parts, "wall_s": round(time.time() - t0, 1),
         }
         json.dump(meta, open(os.path.join(dst, "meta.json"), "w"), indent=1)
